@@ -304,3 +304,423 @@ Example C12_example_real_fe14 :
   r = FOk tt /\ l_get (last (layers S') []) [p] = Some (File [0x13; 13; 0; 0; 0x11; 10; 0; 0; 0x20; 5; 5; 0x70; 1]) /\
   fs_read (real_decompress Wrapping) S' p false = FOk b.
 Proof. exact real_example_fe14. Qed.
+(* ---- the typed helpers END TO END: the section variables above instantiated with the models of the real codecs,
+   parsers and serializers (Model/FsTyped.v); proofs in Proofs/LayeredFSTyped.v compose C01, C06, C15, C16, C20 with
+   read-after-write.  mc = build profile of the writing side, md = of the reading side; the file image must be shorter
+   than 16 MiB (domain of the LZ round trip), stated through C01's size bound ser_bound / C06's file_bound. ---- *)
+From Mila Require Import Model.FsTyped Proofs.LayeredFSTyped.
+From Mila Require Model.BinArchive Model.BinFormat Model.TextMap Model.TextFormat Model.Arc Model.Pack Model.PackFormat
+  Model.TexCommon Model.TexFormat Model.Ctpk Model.Bch Model.Cgfx Model.Tpl
+  Proofs.AMapLemmas Proofs.BinFormatSpec Proofs.BinSerializeConformsPhases Proofs.BinSerializeConforms
+  Proofs.TextFormatWrite Proofs.TextFormatRoundTrip Proofs.TextBinBridge Proofs.ArcProofs Proofs.TexDecode.
+
+(* each helper = byte-level read + real parser with the CONFIGURED endianness / text format, or real serializer (with the
+   parameters stored in the archive value) + byte-level write *)
+Theorem C12_e2e_helpers_unfold : forall mc md S p loc,
+  read_archive md S p loc = fbind (read_file md S p loc) (fun b => lift_parse (BinFormat.from_bytes (c_endian (conf S)) b)) /\
+  read_text_archive md S p loc = fbind (read_file md S p loc) (fun b => lift_parse (parse_text (c_text (conf S)) (c_endian (conf S)) b)) /\
+  read_arc md S p loc = fbind (read_file md S p loc) (fun b => lift_parse (Arc.arc_from_bytes md b)) /\
+  read_fe9_arc md S p loc = fbind (read_file md S p loc) (fun b => lift_parse (Pack.parse md b)) /\
+  read_tpl_textures md S p loc = fbind (read_file md S p loc) (fun b => lift_parse (as_vec (Tpl.read_tpl md b))) /\
+  read_bch_textures md S p loc = fbind (read_file md S p loc) (fun b => lift_parse (as_map (Bch.read_bch md b))) /\
+  read_ctpk_textures md S p loc = fbind (read_file md S p loc) (fun b => lift_parse (as_map (Ctpk.read_ctpk md b))) /\
+  read_cgfx_textures md S p loc = fbind (read_file md S p loc) (fun b => lift_parse (as_map (Cgfx.read_cgfx md b))) /\
+  (forall a, write_archive mc S p a loc =
+     match BinFormat.serialize mc a with
+     | Ok f => write_file mc S p f loc | Err x => (S, FErr (EParse x)) | Panic k => (S, FPanic k) end) /\
+  (forall a, write_text_archive mc S p a loc =
+     match TextFormat.serialize mc (ta_fmt a) (ta_endian a) (ta_map a) with
+     | Ok f => write_file mc S p f loc | Err x => (S, FErr (EParse x)) | Panic k => (S, FPanic k) end).
+Proof. exact typed_helpers_unfold. Qed.
+(* ... and the byte-level operations are the ones of the codec theorems above *)
+Theorem C12_e2e_same_codec : forall mc md, write_file mc = fs_write (real_compress mc) /\ read_file md = fs_read (real_decompress md).
+Proof. intros mc md. split; reflexivity. Qed.
+
+(* every typed reader after a successful byte-level write to the same path: the real parser applied to the written bytes *)
+Theorem C12_e2e_typed_reads_after_write : forall mc md S p b loc S',
+  write_file mc S p b loc = (S', FOk tt) -> wfb b -> lenN b < 2 ^ 24 ->
+  read_file md S' p loc = FOk b /\
+  read_archive md S' p loc = lift_parse (BinFormat.from_bytes (c_endian (conf S)) b) /\
+  read_text_archive md S' p loc = lift_parse (parse_text (c_text (conf S)) (c_endian (conf S)) b) /\
+  read_arc md S' p loc = lift_parse (Arc.arc_from_bytes md b) /\
+  read_fe9_arc md S' p loc = lift_parse (Pack.parse md b) /\
+  read_tpl_textures md S' p loc = lift_parse (as_vec (Tpl.read_tpl md b)) /\
+  read_bch_textures md S' p loc = lift_parse (as_map (Bch.read_bch md b)) /\
+  read_ctpk_textures md S' p loc = lift_parse (as_map (Ctpk.read_ctpk md b)) /\
+  read_cgfx_textures md S' p loc = lift_parse (as_map (Cgfx.read_cgfx md b)).
+Proof. exact typed_reads_after_write. Qed.
+
+(* a typed read in ANY state = the parser applied to the decoded file of the highest layer holding a FILE at the location *)
+Theorem C12_e2e_typed_read_top_wins : forall md A (parse : bytes -> outcome A) S p loc s a (r : fres A),
+  fs_addr S p loc = FOk (s, a) ->
+  (fbind (read_file md S p loc) (fun b => lift_parse (parse b)) = r /\ r <> FErr ENotFound <->
+   exists i L raw, nth_error (layers S) i = Some L /\ l_read L a = Some raw /\
+     (forall j L', (i < j)%nat -> nth_error (layers S) j = Some L' -> l_is_file L' a = false) /\
+     fbind (decode_by_name (lz_decompress md) S p raw) (fun b => lift_parse (parse b)) = r).
+Proof. exact (@typed_read_top_wins). Qed.
+
+(* (a) write_archive -> read_archive: the archive read back is related to the written one exactly as in C01_round_trip *)
+Theorem C12_e2e_same_archive_is_C01 : forall a a' : BinArchive.archive,
+  same_archive a a' <->
+  (BinArchive.a_endian a' = BinArchive.a_endian a /\ BinArchive.a_cstrs a' = [] /\
+   BinArchive.size a' = BinArchive.size a + lenN (BinSerializeConforms.pool_bytes a) /\
+   lenN (BinSerializeConforms.pool_bytes a) mod 4 = 0 /\ (BinArchive.a_cstrs a = [] -> BinArchive.size a' = BinArchive.size a) /\
+   (forall i, (i < N.to_nat (BinArchive.size a))%nat -> BinSerializeConformsPhases.outside (BinSerializeConforms.cells a) i ->
+      nth_error (BinArchive.a_data a') i = nth_error (BinArchive.a_data a) i) /\
+   (forall x, BinArchive.am_get x (BinArchive.a_text a') = BinArchive.am_get x (BinArchive.a_text a)) /\
+   (forall x, ~ In x (BinSerializeConforms.cs_cells a) -> BinArchive.am_get x (BinArchive.a_ptrs a') = BinArchive.am_get x (BinArchive.a_ptrs a)) /\
+   (forall x, BinArchive.am_get x (BinArchive.a_labels a') = BinArchive.am_get x (BinArchive.a_labels a)) /\
+   (forall s cs cell, In (s, cs) (BinArchive.a_cstrs a) -> In cell cs -> BinArchive.read_c_string a' cell = Ok (Some s))).
+Proof. intros a a'. split; exact (fun H => H). Qed.
+Theorem C12_e2e_archive_round_trip : forall mc md S p loc a S',
+  BinSerializeConforms.wf_archive a -> BinSerializeConforms.ser_bound a < 2 ^ 24 -> BinArchive.a_endian a = c_endian (conf S) ->
+  write_archive mc S p a loc = (S', FOk tt) ->
+  exists f a',
+    BinFormat.serialize mc a = Ok f /\ write_file mc S p f loc = (S', FOk tt) /\
+    read_file md S' p loc = FOk f /\
+    read_archive md S' p loc = FOk a' /\ same_archive a a'.
+Proof. exact e2e_archive_round_trip. Qed.
+(* per game: FE9 / FE10 big-endian archives, FE13 - FE15 little-endian archives *)
+Theorem C12_e2e_archive_round_trip_by_game : forall mc md ls l g S p loc a S',
+  fs_new ls l g = FOk S ->
+  BinSerializeConforms.wf_archive a -> BinSerializeConforms.ser_bound a < 2 ^ 24 ->
+  match g with FE9 | FE10 => BinArchive.a_endian a = BE | FE13 | FE14 | FE15 => BinArchive.a_endian a = LE | FE11 | FE12 => False end ->
+  write_archive mc S p a loc = (S', FOk tt) ->
+  exists f a',
+    BinFormat.serialize mc a = Ok f /\ write_file mc S p f loc = (S', FOk tt) /\
+    read_file md S' p loc = FOk f /\
+    read_archive md S' p loc = FOk a' /\ same_archive a a'.
+Proof. exact e2e_archive_round_trip_by_game. Qed.
+(* read_archive of ANY file conforming to the bin-archive format (C01's relation) with the configured endianness *)
+Theorem C12_e2e_read_archive_conforming : forall mc md S p loc f c S',
+  write_file mc S p f loc = (S', FOk tt) -> wfb f -> lenN f < 2 ^ 24 ->
+  BinFormatSpec.conforms (c_endian (conf S)) f c ->
+  exists a, read_archive md S' p loc = FOk a /\ BinArchive.a_data a = BinFormatSpec.c_data c /\
+    BinArchive.a_endian a = c_endian (conf S) /\ BinArchive.a_cstrs a = [] /\
+    (forall x, BinArchive.am_get x (BinArchive.a_ptrs a) = BinArchive.am_get x (BinFormatSpec.c_ptrs c)) /\
+    (forall x, BinArchive.am_get x (BinArchive.a_text a) = BinArchive.am_get x (BinFormatSpec.c_text c)) /\
+    (forall x, BinArchive.am_get x (BinArchive.a_labels a) = BinArchive.am_get x (BinFormatSpec.c_labels c)).
+Proof. exact e2e_read_archive_conforming. Qed.
+
+(* (b) write_text_archive -> read_text_archive: title (the legacy format stores none), keys in order, messages, dirty = false *)
+Theorem C12_e2e_text_round_trip : forall mc md S p loc ta S',
+  TextFormatRoundTrip.wf_text (ta_fmt ta) (ta_map ta) -> TextFormatRoundTrip.wf_text_bytes (ta_fmt ta) (ta_endian ta) (ta_map ta) ->
+  TextFormatRoundTrip.file_bound (TextFormatWrite.text_image (ta_fmt ta) (ta_endian ta) (ta_map ta)) < 2 ^ 24 ->
+  ta_fmt ta = tformat_of (c_text (conf S)) -> ta_endian ta = c_endian (conf S) ->
+  write_text_archive mc S p ta loc = (S', FOk tt) ->
+  exists f,
+    TextFormat.serialize mc (ta_fmt ta) (ta_endian ta) (ta_map ta) = Ok f /\ write_file mc S p f loc = (S', FOk tt) /\
+    read_file md S' p loc = FOk f /\
+    read_text_archive md S' p loc =
+      FOk (mkTA (ta_fmt ta) (ta_endian ta)
+             {| TextMap.t_title := match ta_fmt ta with TextFormat.Unicode => TextMap.t_title (ta_map ta) | TextFormat.ShiftJIS => [] end;
+                TextMap.t_entries := TextMap.t_entries (ta_map ta); TextMap.t_dirty := false |}).
+Proof. exact e2e_text_round_trip. Qed.
+Theorem C12_e2e_text_round_trip_by_game : forall mc md ls l g S p loc ta S',
+  fs_new ls l g = FOk S ->
+  TextFormatRoundTrip.wf_text (ta_fmt ta) (ta_map ta) -> TextFormatRoundTrip.wf_text_bytes (ta_fmt ta) (ta_endian ta) (ta_map ta) ->
+  TextFormatRoundTrip.file_bound (TextFormatWrite.text_image (ta_fmt ta) (ta_endian ta) (ta_map ta)) < 2 ^ 24 ->
+  match g with
+  | FE9 | FE10 => ta_fmt ta = TextFormat.ShiftJIS /\ ta_endian ta = BE
+  | FE13 | FE14 | FE15 => ta_fmt ta = TextFormat.Unicode /\ ta_endian ta = LE
+  | FE11 | FE12 => False
+  end ->
+  write_text_archive mc S p ta loc = (S', FOk tt) ->
+  exists f,
+    TextFormat.serialize mc (ta_fmt ta) (ta_endian ta) (ta_map ta) = Ok f /\ write_file mc S p f loc = (S', FOk tt) /\
+    read_file md S' p loc = FOk f /\
+    read_text_archive md S' p loc =
+      FOk (mkTA (ta_fmt ta) (ta_endian ta)
+             {| TextMap.t_title := match ta_fmt ta with TextFormat.Unicode => TextMap.t_title (ta_map ta) | TextFormat.ShiftJIS => [] end;
+                TextMap.t_entries := TextMap.t_entries (ta_map ta); TextMap.t_dirty := false |}).
+Proof. exact e2e_text_round_trip_by_game. Qed.
+
+(* everything together, per game: archive value -> image f (C01 / C06) -> stored file c (LZ10 for ".cms" / ".cmp" under FE9 / FE10,
+   0x13-wrapped LZ11 for ".lz" under FE13 - FE15, f itself otherwise) in the top layer at the addressed location -> decompressed by the
+   game's decompressor back to f -> parsed with the game's endianness (and text format) to the value the typed reader returns *)
+Theorem C12_e2e_archive_by_game_chain : forall mc md ls l g S p loc a S',
+  fs_new ls l g = FOk S ->
+  BinSerializeConforms.wf_archive a -> BinSerializeConforms.ser_bound a < 2 ^ 24 ->
+  match g with FE9 | FE10 => BinArchive.a_endian a = BE | FE13 | FE14 | FE15 => BinArchive.a_endian a = LE | FE11 | FE12 => False end ->
+  write_archive mc S p a loc = (S', FOk tt) ->
+  exists f a' s pp c,
+    BinFormat.serialize mc a = Ok f /\
+    fs_addr S p loc = FOk (s, (pp, false)) /\ l_get (last (layers S') []) pp = Some (File c) /\
+    match g with
+    | FE9 | FE10 => if orb (ends_with sfx_cms p) (ends_with sfx_cmp p)
+                    then valid_stream LayeredFS.LZ10 f c /\ lz10_decompress md c = Ok f else c = f
+    | _ => if ends_with sfx_lz p then valid_stream LayeredFS.LZ13 f c /\ lz13_decompress md c = Ok f else c = f
+    end /\
+    BinFormat.from_bytes (match g with FE9 | FE10 => BE | _ => LE end) f = Ok a' /\
+    read_archive md S' p loc = FOk a' /\ same_archive a a'.
+Proof. exact e2e_archive_by_game_chain. Qed.
+Theorem C12_e2e_text_by_game_chain : forall mc md ls l g S p loc ta S',
+  fs_new ls l g = FOk S ->
+  TextFormatRoundTrip.wf_text (ta_fmt ta) (ta_map ta) -> TextFormatRoundTrip.wf_text_bytes (ta_fmt ta) (ta_endian ta) (ta_map ta) ->
+  TextFormatRoundTrip.file_bound (TextFormatWrite.text_image (ta_fmt ta) (ta_endian ta) (ta_map ta)) < 2 ^ 24 ->
+  match g with
+  | FE9 | FE10 => ta_fmt ta = TextFormat.ShiftJIS /\ ta_endian ta = BE
+  | FE13 | FE14 | FE15 => ta_fmt ta = TextFormat.Unicode /\ ta_endian ta = LE
+  | FE11 | FE12 => False
+  end ->
+  write_text_archive mc S p ta loc = (S', FOk tt) ->
+  exists f s pp c,
+    TextFormat.serialize mc (ta_fmt ta) (ta_endian ta) (ta_map ta) = Ok f /\
+    fs_addr S p loc = FOk (s, (pp, false)) /\ l_get (last (layers S') []) pp = Some (File c) /\
+    match g with
+    | FE9 | FE10 => if orb (ends_with sfx_cms p) (ends_with sfx_cmp p)
+                    then valid_stream LayeredFS.LZ10 f c /\ lz10_decompress md c = Ok f else c = f
+    | _ => if ends_with sfx_lz p then valid_stream LayeredFS.LZ13 f c /\ lz13_decompress md c = Ok f else c = f
+    end /\
+    TextFormat.from_bytes (match g with FE9 | FE10 => TextFormat.ShiftJIS | _ => TextFormat.Unicode end)
+                          (match g with FE9 | FE10 => BE | _ => LE end) f = Ok (TextFormatRoundTrip.parsed (ta_fmt ta) (ta_map ta)) /\
+    read_text_archive md S' p loc = FOk (mkTA (ta_fmt ta) (ta_endian ta) (TextFormatRoundTrip.parsed (ta_fmt ta) (ta_map ta))).
+Proof. exact e2e_text_by_game_chain. Qed.
+(* what [parsed] is: the title (the legacy format stores none), the entries in order, dirty = false *)
+Theorem C12_e2e_parsed_is : forall fmt t,
+  TextFormatRoundTrip.parsed fmt t =
+  {| TextMap.t_title := match fmt with TextFormat.Unicode => TextMap.t_title t | TextFormat.ShiftJIS => [] end;
+     TextMap.t_entries := TextMap.t_entries t; TextMap.t_dirty := false |}.
+Proof. reflexivity. Qed.
+
+(* (c) pack / arc / texture images written with the byte-level write (there is no typed writer), read by the typed readers *)
+Theorem C12_e2e_read_fe9_arc : forall mc md S p loc f fl S',
+  write_file mc S p f loc = (S', FOk tt) -> wfb f -> lenN f < 2 ^ 24 ->
+  PackFormat.conforms_pack f fl -> read_fe9_arc md S' p loc = FOk fl.
+Proof. exact e2e_read_fe9_arc. Qed.
+Theorem C12_e2e_fe9_arc_round_trip : forall mc md S p loc fl f S',
+  PackFormat.wf_files fl -> N.of_nat (length fl) <= 65535 -> PackFormat.fits32 fl ->
+  Pack.serialize fl = Ok f -> lenN f < 2 ^ 24 ->
+  write_file mc S p f loc = (S', FOk tt) -> read_fe9_arc md S' p loc = FOk fl.
+Proof. exact e2e_fe9_arc_round_trip. Qed.
+Theorem C12_e2e_read_arc : forall mc md S p loc f c fl S',
+  write_file mc S p f loc = (S', FOk tt) -> wfb f -> lenN f < 2 ^ 24 ->
+  BinFormatSpec.conforms LE f c -> ArcProofs.arc_layout (TextBinBridge.content_archive LE c) fl ->
+  read_arc md S' p loc = FOk fl.
+Proof. exact e2e_read_arc. Qed.
+Theorem C12_e2e_read_ctpk : forall mc md S p loc f texs S',
+  write_file mc S p f loc = (S', FOk tt) -> wfb f -> lenN f < 2 ^ 24 -> TexFormat.conforms_ctpk f texs ->
+  read_ctpk_textures md S' p loc = lift_parse (as_map (TexCommon.decode_all (TexCommon.decode_tex md) texs)).
+Proof. exact e2e_read_ctpk. Qed.
+Theorem C12_e2e_read_bch : forall mc md S p loc f texs S',
+  write_file mc S p f loc = (S', FOk tt) -> wfb f -> lenN f < 2 ^ 24 -> TexFormat.conforms_bch f texs ->
+  read_bch_textures md S' p loc = lift_parse (as_map (TexCommon.decode_all (TexCommon.decode_tex md) texs)).
+Proof. exact e2e_read_bch. Qed.
+Theorem C12_e2e_read_cgfx : forall mc md S p loc f texs S',
+  write_file mc S p f loc = (S', FOk tt) -> wfb f -> lenN f < 2 ^ 24 -> TexFormat.conforms_cgfx f texs ->
+  read_cgfx_textures md S' p loc = lift_parse (as_map (TexCommon.decode_all (TexCommon.decode_tex md) texs)).
+Proof. exact e2e_read_cgfx. Qed.
+Theorem C12_e2e_read_tpl : forall mc md S p loc f texs S',
+  write_file mc S p f loc = (S', FOk tt) -> wfb f -> lenN f < 2 ^ 24 -> TexFormat.conforms_tpl f texs ->
+  read_tpl_textures md S' p loc = lift_parse (as_vec (TexCommon.decode_all TexCommon.decode_tpl_tex texs)).
+Proof. exact e2e_read_tpl. Qed.
+(* on C19's supported textures: the packed textures decoded, by name (bch / ctpk / cgfx) or in order (tpl) *)
+Theorem C12_e2e_read_textures_supported : forall mc md S p loc f texs S',
+  write_file mc S p f loc = (S', FOk tt) -> wfb f -> lenN f < 2 ^ 24 ->
+  (TexFormat.conforms_ctpk f texs -> Forall TexDecode.supported3ds texs ->
+     read_ctpk_textures md S' p loc = FOk (TexMap (tex_map (map TexDecode.decoded texs)))) /\
+  (TexFormat.conforms_bch f texs -> Forall TexDecode.supported3ds texs ->
+     read_bch_textures md S' p loc = FOk (TexMap (tex_map (map TexDecode.decoded texs)))) /\
+  (TexFormat.conforms_cgfx f texs -> Forall TexDecode.supported3ds texs ->
+     read_cgfx_textures md S' p loc = FOk (TexMap (tex_map (map TexDecode.decoded texs)))) /\
+  (TexFormat.conforms_tpl f texs -> Forall TexDecode.supportedtpl texs ->
+     read_tpl_textures md S' p loc = FOk (TexVec (map TexDecode.tpl_decoded texs))).
+Proof. exact e2e_read_textures_supported. Qed.
+(* texture_vec_to_map: with distinct names the list itself keyed by name; in general a name maps to the LAST texture carrying it *)
+Theorem C12_e2e_tex_map_distinct : forall l, NoDup (map TexCommon.x_name l) -> tex_map l = map (fun t => (TexCommon.x_name t, t)) l.
+Proof. exact tex_map_distinct. Qed.
+Theorem C12_e2e_tex_map_lookup : forall l k, tex_get k (tex_map l) = find (fun t => bytes_eqb k (TexCommon.x_name t)) (rev l).
+Proof. exact tex_map_lookup. Qed.
+
+(* (d) the typed writers touch the top layer only *)
+Theorem C12_e2e_write_archive_lower_untouched : forall mc S p a loc S' r,
+  write_archive mc S p a loc = (S', r) ->
+  conf S' = conf S /\ lng S' = lng S /\ length (layers S') = length (layers S) /\ removelast (layers S') = removelast (layers S).
+Proof. exact write_archive_lower_untouched. Qed.
+Theorem C12_e2e_write_text_archive_lower_untouched : forall mc S p a loc S' r,
+  write_text_archive mc S p a loc = (S', r) ->
+  conf S' = conf S /\ lng S' = lng S /\ length (layers S') = length (layers S) /\ removelast (layers S') = removelast (layers S).
+Proof. exact write_text_archive_lower_untouched. Qed.
+(* success: the top layer holds at the addressed location a valid LZ10 / wrapped LZ11 stream of the IMAGE (compressed name) or
+   the image itself, directories at its ancestors, and is unchanged everywhere else *)
+Theorem C12_e2e_top_layer_effect_is : forall S S' pp c,
+  top_layer_effect S S' pp c <->
+  (pp <> [] /\ layers S <> [] /\
+   let top := last (layers S) [] in let top' := last (layers S') [] in
+   l_get top' pp = Some (File c) /\
+   (forall q, In q (proper_prefixes pp) -> l_get top' q = Some Dir) /\
+   (forall q, q <> pp -> ~ (In q (proper_prefixes pp) /\ l_get top q = None) -> l_get top' q = l_get top q) /\
+   l_get top pp <> Some Dir /\ (forall q, In q (proper_prefixes pp) -> is_file_at top q = false)).
+Proof. intros S S' pp c. split; exact (fun H => H). Qed.
+Theorem C12_e2e_write_archive_top_only : forall mc S p a loc S',
+  BinSerializeConforms.wf_archive a -> BinSerializeConforms.ser_bound a < 2 ^ 24 ->
+  write_archive mc S p a loc = (S', FOk tt) ->
+  exists f s pp c, BinFormat.serialize mc a = Ok f /\ fs_addr S p loc = FOk (s, (pp, false)) /\ top_layer_effect S S' pp c /\
+    if is_compressed (c_comp (conf S)) p then valid_stream (c_comp (conf S)) f c else c = f.
+Proof. exact write_archive_top_only. Qed.
+Theorem C12_e2e_write_text_archive_top_only : forall mc S p ta loc S',
+  TextFormatRoundTrip.wf_text (ta_fmt ta) (ta_map ta) -> TextFormatRoundTrip.wf_text_bytes (ta_fmt ta) (ta_endian ta) (ta_map ta) ->
+  TextFormatRoundTrip.file_bound (TextFormatWrite.text_image (ta_fmt ta) (ta_endian ta) (ta_map ta)) < 2 ^ 24 ->
+  write_text_archive mc S p ta loc = (S', FOk tt) ->
+  exists f s pp c, TextFormat.serialize mc (ta_fmt ta) (ta_endian ta) (ta_map ta) = Ok f /\
+    fs_addr S p loc = FOk (s, (pp, false)) /\ top_layer_effect S S' pp c /\
+    if is_compressed (c_comp (conf S)) p then valid_stream (c_comp (conf S)) f c else c = f.
+Proof. exact write_text_archive_top_only. Qed.
+(* in the domain the serializers succeed, so a typed write IS the byte-level write of the image (its failures are the ones of
+   C12_write_fail / C12_write_fail_unchanged); a failing serializer changes nothing *)
+Theorem C12_e2e_write_archive_is_write : forall mc S p a loc,
+  BinSerializeConforms.wf_archive a -> BinSerializeConforms.ser_bound a < 2 ^ 24 ->
+  exists f, BinFormat.serialize mc a = Ok f /\ wfb f /\ lenN f < 2 ^ 24 /\ write_archive mc S p a loc = write_file mc S p f loc.
+Proof. exact write_archive_is_write. Qed.
+Theorem C12_e2e_write_text_archive_is_write : forall mc S p ta loc,
+  TextFormatRoundTrip.wf_text (ta_fmt ta) (ta_map ta) -> TextFormatRoundTrip.wf_text_bytes (ta_fmt ta) (ta_endian ta) (ta_map ta) ->
+  TextFormatRoundTrip.file_bound (TextFormatWrite.text_image (ta_fmt ta) (ta_endian ta) (ta_map ta)) < 2 ^ 24 ->
+  exists f, TextFormat.serialize mc (ta_fmt ta) (ta_endian ta) (ta_map ta) = Ok f /\ wfb f /\ lenN f < 2 ^ 24 /\
+    write_text_archive mc S p ta loc = write_file mc S p f loc.
+Proof. exact write_text_archive_is_write. Qed.
+Theorem C12_e2e_write_archive_serialize_fails : forall mc S p a loc S' r,
+  write_archive mc S p a loc = (S', r) -> (forall f, BinFormat.serialize mc a <> Ok f) -> S' = S /\ r <> FOk tt.
+Proof. exact write_archive_serialize_fails. Qed.
+
+(* ---- histories of typed and byte-level calls (typed_run = iteration of typed_step, the function the correspondence runs) ---- *)
+(* along ANY history: configuration, language, number of layers and all layers but the last never change; layers stay directory trees *)
+Theorem C12_e2e_typed_run_lower_untouched : forall mc md os S,
+  let S' := typed_run mc md S os in
+  conf S' = conf S /\ lng S' = lng S /\ length (layers S') = length (layers S) /\ removelast (layers S') = removelast (layers S).
+Proof. exact typed_run_lower_untouched. Qed.
+Theorem C12_e2e_typed_run_wf : forall mc md os S, wf_fs S -> wf_fs (typed_run mc md S os).
+Proof. exact typed_run_wf. Qed.
+(* frame, for EVERY codec: a write - whatever it returns - that is not addressed to the location p addresses leaves read p unchanged *)
+Theorem C12_e2e_write_frame_read : forall compress decompress S q b locq S' r p loc s a,
+  fs_write compress S q b locq = (S', r) ->
+  fs_addr S p loc = FOk (s, a) ->
+  (forall s' qq trq, fs_addr S q locq = FOk (s', (qq, trq)) -> qq <> fst a) ->
+  fs_read decompress S' p loc = fs_read decompress S p loc.
+Proof. exact write_frame_read. Qed.
+(* [writes_elsewhere S pp o]: o is a read, or a (typed) write whose addressed location is not pp *)
+Theorem C12_e2e_writes_elsewhere_is : forall S pp o,
+  writes_elsewhere S pp o <->
+  match o with
+  | TWrite q _ l | TWriteArchive q _ l | TWriteText q _ l => forall s qq tr, fs_addr S q l = FOk (s, (qq, tr)) -> qq <> pp
+  | _ => True
+  end.
+Proof. intros S pp o. split; exact (fun H => H). Qed.
+(* along a history none of whose calls writes to the location p addresses, every reader returns what it returned before *)
+Theorem C12_e2e_typed_run_keeps_typed_reads : forall mc md md' os S p loc s a,
+  fs_addr S p loc = FOk (s, a) -> Forall (writes_elsewhere S (fst a)) os ->
+  let S' := typed_run mc md S os in
+  read_file md' S' p loc = read_file md' S p loc /\
+  read_archive md' S' p loc = read_archive md' S p loc /\
+  read_text_archive md' S' p loc = read_text_archive md' S p loc /\
+  read_arc md' S' p loc = read_arc md' S p loc /\
+  read_fe9_arc md' S' p loc = read_fe9_arc md' S p loc /\
+  (forall k, read_textures md' k S' p loc = read_textures md' k S p loc).
+Proof. exact typed_run_keeps_typed_reads. Qed.
+(* read-after-write THROUGH a history: write_archive, then any calls that do not write to the same location (writes elsewhere, typed or
+   not, succeeding or failing, and reads), then read_archive: the archive of C01's round trip *)
+Theorem C12_e2e_archive_round_trip_history : forall mc md S p loc a S1 os,
+  BinSerializeConforms.wf_archive a -> BinSerializeConforms.ser_bound a < 2 ^ 24 -> BinArchive.a_endian a = c_endian (conf S) ->
+  write_archive mc S p a loc = (S1, FOk tt) ->
+  (forall s pp tr, fs_addr S p loc = FOk (s, (pp, tr)) -> Forall (writes_elsewhere S pp) os) ->
+  exists a', read_archive md (typed_run mc md S1 os) p loc = FOk a' /\ same_archive a a'.
+Proof. exact e2e_archive_round_trip_history. Qed.
+
+(* ---- localisation (file-system half of C14) for the typed helpers ---- *)
+(* a localized typed call addresses what the unlocalized call on [localize p] addresses; the codec is chosen by the caller's name (the
+   premise holds for every path dir/name without trailing '/': C14_fs_same_codec) *)
+Theorem C12_e2e_typed_localized_consistent : forall mc md S p p',
+  localize (c_loc (conf S)) (lng S) p = LOk p' ->
+  is_compressed (c_comp (conf S)) p = is_compressed (c_comp (conf S)) p' ->
+  read_file md S p true = read_file md S p' false /\
+  read_archive md S p true = read_archive md S p' false /\
+  read_text_archive md S p true = read_text_archive md S p' false /\
+  read_arc md S p true = read_arc md S p' false /\
+  read_fe9_arc md S p true = read_fe9_arc md S p' false /\
+  (forall k, read_textures md k S p true = read_textures md k S p' false) /\
+  (forall b, write_file mc S p b true = write_file mc S p' b false) /\
+  (forall a, write_archive mc S p a true = write_archive mc S p' a false) /\
+  (forall a, write_text_archive mc S p a true = write_text_archive mc S p' a false).
+Proof. exact typed_localized_consistent. Qed.
+(* a localisation error is returned by every typed reader, and by a typed writer unless its serializer fails first (the code serializes
+   before it localizes); nothing changes *)
+Theorem C12_e2e_typed_localisation_error : forall mc md S p e,
+  localize (c_loc (conf S)) (lng S) p = LErr e ->
+  read_file md S p true = FErr (ELocalization e) /\
+  read_archive md S p true = FErr (ELocalization e) /\
+  read_text_archive md S p true = FErr (ELocalization e) /\
+  read_arc md S p true = FErr (ELocalization e) /\
+  read_fe9_arc md S p true = FErr (ELocalization e) /\
+  (forall k, read_textures md k S p true = FErr (ELocalization e)) /\
+  (forall b, write_file mc S p b true = (S, FErr (ELocalization e))) /\
+  (forall a f, BinFormat.serialize mc a = Ok f -> write_archive mc S p a true = (S, FErr (ELocalization e))) /\
+  (forall a f, TextFormat.serialize mc (ta_fmt a) (ta_endian a) (ta_map a) = Ok f ->
+     write_text_archive mc S p a true = (S, FErr (ELocalization e))) /\
+  (forall a S' r, write_archive mc S p a true = (S', r) -> S' = S) /\
+  (forall a S' r, write_text_archive mc S p a true = (S', r) -> S' = S).
+Proof. exact typed_localisation_error. Qed.
+
+(* ---- non-vacuity of the end-to-end statements (all by computation on the instantiated model) ---- *)
+Example C12_e2e_example_archive_hyp :
+  fs_new [[]] EnglishNA FE10 = FOk ex_fe10 /\ BinSerializeConforms.wf_archive BinSerializeConforms.ex_archive /\
+  BinSerializeConforms.ser_bound BinSerializeConforms.ex_archive < 2 ^ 24 /\
+  BinArchive.a_endian BinSerializeConforms.ex_archive = BE.
+Proof. exact e2e_example_archive_hyp. Qed.
+Example C12_e2e_example_archive :
+  let '(S', r) := write_archive Checked ex_fe10 ex_cmp BinSerializeConforms.ex_archive false in
+  r = FOk tt /\
+  l_get (last (layers S') []) [ex_cmp] =
+    Some (File [16; 87; 0; 0; 10; 0; 0; 0; 87; 0; 3; 18; 0; 7; 3; 181; 0; 11; 2; 0; 15; 208; 2; 52; 0; 35; 14; 16; 27; 10; 13; 14; 99; 115;
+                32; 31; 4; 0; 53; 8; 224; 64; 41; 16; 25; 80; 7; 3; 76; 49; 0; 76; 0; 50; 0; 104; 105; 0]) /\
+  read_archive Wrapping S' ex_cmp false =
+    FOk {| BinArchive.a_data := [0; 0; 0; 52; 0; 0; 0; 14; 0; 0; 0; 2; 13; 14; 99; 115; 0; 0]; BinArchive.a_text := [(0, [104; 105])];
+           BinArchive.a_ptrs := [(4, 14); (8, 2)]; BinArchive.a_labels := [(14, [[76; 49]; [76; 50]])];
+           BinArchive.a_cstrs := []; BinArchive.a_endian := BE |}.
+Proof. exact e2e_example_archive. Qed.
+(* the endianness hypothesis is necessary: a LITTLE-endian archive is written to the FE10 file system without complaint and
+   read_archive (big-endian for FE10) rejects the file *)
+Example C12_e2e_archive_wrong_endian :
+  let '(S', r) := write_archive Checked ex_fe10 ex_cmp ex_archive_le false in
+  r = FOk tt /\ read_archive Checked S' ex_cmp false = FErr (EParse ETooSmall).
+Proof. exact e2e_archive_wrong_endian. Qed.
+Example C12_e2e_example_text_hyp :
+  fs_new [[]; []] French FE14 = FOk ex_fe14 /\
+  TextFormatRoundTrip.wf_text (ta_fmt ex_text) (ta_map ex_text) /\
+  TextFormatRoundTrip.wf_text_bytes (ta_fmt ex_text) (ta_endian ex_text) (ta_map ex_text) /\
+  TextFormatRoundTrip.file_bound (TextFormatWrite.text_image (ta_fmt ex_text) (ta_endian ex_text) (ta_map ex_text)) < 2 ^ 24 /\
+  (ta_fmt ex_text = TextFormat.Unicode /\ ta_endian ex_text = LE).
+Proof. exact e2e_example_text_hyp. Qed.
+(* FE14, two layers, French, LOCALIZED write of "m/t.bin.lz": stored at m/@F/t.bin.lz in the top layer as a 0x13-wrapped stream *)
+Example C12_e2e_example_text :
+  let '(S', r) := write_text_archive Checked ex_fe14 ex_lz ex_text true in
+  r = FOk tt /\ nth_error (layers S') 0 = Some [] /\
+  (exists c, l_get (last (layers S') []) [[109]; [64; 70]; [116; 46; 98; 105; 110; 46; 108; 122]] = Some (File (0x13 :: c))) /\
+  read_text_archive Wrapping S' ex_lz true =
+    FOk (mkTA TextFormat.Unicode LE {| TextMap.t_title := [84; 105]; TextMap.t_entries := TextMap.t_entries (ta_map ex_text); TextMap.t_dirty := false |}).
+Proof. exact e2e_example_text. Qed.
+Example C12_e2e_example_pack :
+  wfb ex_pack /\ PackFormat.conforms_pack ex_pack [([97;98], [10;11;12;13]); ([98], [11;12])] /\
+  let '(S', r) := write_file Checked ex_fe9 ex_cms ex_pack false in
+  r = FOk tt /\ read_fe9_arc Wrapping S' ex_cms false = FOk [([97;98], [10;11;12;13]); ([98], [11;12])].
+Proof. exact e2e_example_pack. Qed.
+Example C12_e2e_example_arc :
+  let p := [100; 47; 120; 46; 97; 114; 99] in
+  let '(S', r) := write_file Checked ex_fe13 p ex_arc_file false in
+  r = FOk tt /\ read_arc Wrapping S' p false = FOk [([98], [9;8;7])].
+Proof. exact e2e_example_arc. Qed.
+Example C12_e2e_example_ctpk :
+  wfb ex_ctpk /\ TexFormat.conforms_ctpk ex_ctpk [ex_ctpk_tex] /\ Forall TexDecode.supported3ds [ex_ctpk_tex] /\
+  let p := [116; 46; 99; 116; 112; 107; 46; 108; 122] in
+  let '(S', r) := write_file Checked ex_fe13 p ex_ctpk false in
+  r = FOk tt /\
+  read_ctpk_textures Wrapping S' p false = FOk (TexMap [([131;101;120], TexDecode.decoded ex_ctpk_tex)]).
+Proof. exact e2e_example_ctpk. Qed.
+(* a history: write_archive "a.cmp"; then write "b.bin", write_archive "d/c.cmp", a FAILING write "b.bin/x" (through a file), two reads *)
+Example C12_e2e_example_history_hyp :
+  forall s pp tr, fs_addr ex_fe10 ex_cmp false = FOk (s, (pp, tr)) -> Forall (writes_elsewhere ex_fe10 pp) ex_history.
+Proof. exact e2e_example_history_hyp. Qed.
+Example C12_e2e_example_history :
+  let '(S1, r) := write_archive Checked ex_fe10 ex_cmp BinSerializeConforms.ex_archive false in
+  r = FOk tt /\
+  exists a', read_archive Wrapping (typed_run Checked Wrapping S1 ex_history) ex_cmp false = FOk a' /\
+             same_archive BinSerializeConforms.ex_archive a'.
+Proof. exact e2e_example_history. Qed.
